@@ -461,3 +461,169 @@ func init() {
 	}
 }
 
+func init() {
+	ws := func(n string) string { return "JsonPrims." + n }
+	areas["ctorjson"] = &area{
+		name:   "ctorjson",
+		module: "CtorJsonGen",
+		header: []string{
+			"From Coq Require Import ZArith List Bool String.",
+			"From Shoot Require Import Base.Str Model.Transfer Model.Ctor Model.CtorGetSet Model.CtorJson Bridge.GoPrims Bridge.JsonPrims.",
+		},
+		world: "JsonPrims.jworld",
+		funcs: []fnSpec{
+			{file: "internal/constructor/types.go", name: "Field.HasJSONTag"},
+			{file: "internal/constructor/types.go", name: "Field.JSONTag"},
+			{file: "internal/constructor/json.go", name: "Generator.makeJson"},
+		},
+		types: map[string]string{
+			"bool": "bool", "string": "string", "int": "Z", "[]string": "(list string)",
+			"*Field": "Ctor.field", "[]*Field": "(list Ctor.field)",
+			"map[string]string": "JsonPrims.smap", "shoot.Set[string]": "JsonPrims.sset",
+			"*Generator": "-", "*Flags": "JsonPrims.jflags", "TagCase": "string",
+			"shoot.Func": "CtorGetSet.gs_method", "[]shoot.Func": "(list CtorGetSet.gs_method)",
+			"func(string) string": "(string -> string)",
+		},
+		ptrs:   map[string]bool{},
+		shadow: true,
+		records: map[string]map[string]recField{
+			"*Field": {
+				"name":       {"Ctor.f_name", "", "string"},
+				"isShadowed": {"Ctor.f_shadowed", "", "bool"},
+				"isEmbeded":  {"Ctor.f_embedded", "", "bool"},
+				"jsonTag":    {"Ctor.f_jsontag", "", "string"},
+				"isGet":      {"Ctor.f_get", "", "bool"},
+				"isSet":      {"Ctor.f_set", "", "bool"},
+			},
+			"*Flags": {
+				"json":    {ws("jf_json"), "", "bool"},
+				"tagcase": {ws("jf_tagcase"), "", "string"},
+			},
+		},
+		fields: map[string]map[string]field{
+			"shoot.Func": {"Name": {"CtorGetSet.gm_name", "string"}},
+		},
+		wrecv: map[string]map[string]wfield{
+			"*Generator": {
+				"fields":        {get: "(JsonPrims.j_fields w)", typ: "[]*Field"},
+				"flags":         {get: "(JsonPrims.j_flags w)", typ: "*Flags"},
+				"getter":        {get: "(JsonPrims.j_getter w)", typ: "bool"},
+				"setter":        {get: "(JsonPrims.j_setter w)", typ: "bool"},
+				"getsetMethods": {get: "(JsonPrims.j_methods w)", typ: "[]shoot.Func"},
+			},
+		},
+		values: map[string]field{
+			"transfer.ID":           {ws("trans_id"), "func(string) string"},
+			"transfer.ToPascalCase": {"Transfer.to_pascal_case", "func(string) string"},
+			"transfer.ToCamelCase":  {"Transfer.to_camel_case", "func(string) string"},
+			"strings.ToLower":       {"Str.lower", "func(string) string"},
+			"strings.ToUpper":       {"Str.upper", "func(string) string"},
+		},
+		callables: map[string]callable{
+			"func(string) string": {coq: ws("call_trans"), result: "string"},
+		},
+		makes: map[string]string{"map[string]string": ws("smap_make")},
+		lmaps: map[string]string{"map[string]string": "Ctor.map_put"},
+		lmuts: map[string]string{"shoot.Set[string].Adds": ws("set_adds")},
+		wsets: map[string]string{
+			"*Generator.data.JSONTagMap":     ws("set_tags"),
+			"*Generator.data.JSON":           ws("set_json"),
+			"*Generator.data.JSONList":       ws("set_list"),
+			"*Generator.data.JSONGetterList": ws("set_getters"),
+			"*Generator.data.JSONSetterList": ws("set_setters"),
+			"*Generator.data.ExportedList":   ws("set_exported"),
+		},
+		prims: map[string]prim{
+			"transfer.ToPascalCase": {coq: "Transfer.to_pascal_case", args: []int{0}, results: []string{"string"}},
+			"ast.IsExported":        {coq: "Str.is_exported", args: []int{0}, results: []string{"bool"}},
+			"shoot.MakeSet[...]":    {coq: ws("set_make"), args: nil, results: []string{"shoot.Set[string]"}},
+			"shoot.Set[string].Has": {recv: true, coq: ws("set_has"), args: []int{0}, results: []string{"bool"}},
+			"shoot.Func.IsGetter":   {recv: true, coq: ws("func_is_getter"), results: []string{"bool"}},
+			"shoot.Func.IsSetter":   {recv: true, coq: ws("func_is_setter"), results: []string{"bool"}},
+		},
+		nilPan: "PNilDeref",
+	}
+}
+
+func init() {
+	ws := func(n string) string { return "RestParamPrims." + n }
+	areas["restparam"] = &area{
+		name:   "restparam",
+		module: "RestParamGen",
+		header: []string{
+			"From Coq Require Import ZArith List Bool String.",
+			"From Shoot Require Import Base.Str Model.Transfer Model.Directive Model.Rest Bridge.GoPrims Bridge.RestParamPrims.",
+		},
+		section: []string{
+			"Section Gen.",
+			"(* g.handleStruct(paramType, typeName, name, methodName) as handleIdent calls it: go/types lookup, package directory,",
+			"   extractStructFields, then the loop translated below as handleStruct (instantiated in the bridge) *)",
+			"Variable handleStruct_o : string -> string -> string -> RestParamPrims.pworld -> RestParamPrims.pworld.",
+			"",
+		},
+		footer: []string{"End Gen."},
+		world:  "RestParamPrims.pworld",
+		funcs: []fnSpec{
+			{file: "internal/restclient/paramhandler.go", name: "Generator.setBodyParamName"},
+			{file: "internal/restclient/paramhandler.go", name: "Generator.handleMapType"},
+			{file: "internal/restclient/paramhandler.go", name: "Generator.handleStruct", from: "for _, f := range fields {",
+				vars: map[string]string{"fields": "[]fieldInfo"}, as: "handleStructLoop"},
+			{file: "internal/restclient/paramhandler.go", name: "Generator.handleIdent"},
+		},
+		types: map[string]string{
+			"bool": "bool", "string": "string", "int": "Z", "[]string": "(list string)",
+			"*ast.Ident": "string", "*ast.File": "-", "ast.Expr": "-", "*Generator": "-",
+			"*TmplData": "RestParamPrims.pworld", "map[string][]string": "(list (string * list string))",
+			"fieldInfo": "Rest.field_info", "[]fieldInfo": "(list Rest.field_info)",
+		},
+		ptrs:   map[string]bool{},
+		shadow: true,
+		fields: map[string]map[string]field{
+			"fieldInfo": {
+				"Name": {"Rest.fi_name", "string"}, "Alias": {"Rest.fi_alias", "string"},
+				"IsExported": {"Rest.fi_exported", "bool"}, "IsPtr": {"Rest.fi_ptr", "bool"},
+			},
+		},
+		records: map[string]map[string]recField{
+			"*ast.Ident": {"Name": {ws("ident_name"), "", "string"}},
+			"*TmplData": {
+				"PathParamsMap":  {ws("p_pathparams"), "", "map[string][]string"},
+				"QueryParamsMap": {ws("p_query"), "", "map[string][]string"},
+			},
+		},
+		wrecv: map[string]map[string]wfield{
+			"*Generator": {"data": {get: "w", typ: "*TmplData"}},
+		},
+		values: map[string]field{
+			"http.MethodGet":    {"\"GET\"%string", "string"},
+			"http.MethodDelete": {"\"DELETE\"%string", "string"},
+		},
+		mapget: map[string]string{"map[string][]string": ws("sl_get")},
+		mapvals: map[string]string{
+			"*Generator.data.BodyParamMap": "string",
+			"*Generator.data.QueryDictMap": "string",
+		},
+		wlooks: map[string]string{
+			"*Generator.data.BodyParamMap": ws("body_lookup"),
+			"*Generator.data.QueryDictMap": ws("dict_lookup"),
+		},
+		wmaps: map[string]string{
+			"*Generator.data.BodyParamMap":   ws("body_set"),
+			"*Generator.data.QueryDictMap":   ws("dict_set"),
+			"*Generator.data.QueryParamsMap": ws("query_set"),
+		},
+		wmaps2: map[string]string{
+			"*Generator.data.IsParamPtrMap": ws("isptr_set2"),
+			"*Generator.data.AliasMap":      ws("alias_set2"),
+		},
+		prims: map[string]prim{
+			"transfer.ToCamelCase":       {coq: "Transfer.to_camel_case", args: []int{0}, results: []string{"string"}},
+			"transfer.ToPascalCase":      {coq: "Transfer.to_pascal_case", args: []int{0}, results: []string{"string"}},
+			"shoot.Contains":             {coq: ws("contains"), args: []int{0, 1}, results: []string{"bool"}},
+			"*Generator.isPkgStructType": {coq: ws("is_pkg_struct"), args: []int{0}, results: []string{"bool"}, reads: true},
+			"*Generator.handleStruct":    {coq: "handleStruct_o", args: []int{1, 2, 3}, results: nil, world: true},
+		},
+		fatals: map[string]bool{"logx.Fatalf": true},
+		nilPan: "PNilDeref",
+	}
+}
